@@ -39,6 +39,7 @@ sys.path.insert(0, os.path.dirname(os.path.abspath(__file__)))
 import progen  # noqa: E402
 import sched  # noqa: E402
 import c07_templates as TT  # noqa: E402
+import c07_ops  # noqa: E402
 import attrs  # noqa: E402
 import exo.API_cursors as PC  # noqa: E402
 from exo.API import Procedure  # noqa: E402
@@ -222,7 +223,7 @@ def install_argument_watch():
 
 
 # ------------------------------------------------------------------------------------------- session
-GEN_NAME = re.compile(r"\b(bnd|io|ii|ij|al|sub_x|stg|renamed)_\d+")
+GEN_NAME = re.compile(r"\b(bnd|io|ii|ij|al|sub_x|subx|stg|renamed|lb|o|i)_x?\d+")
 
 
 def norm_names(s):
@@ -237,7 +238,7 @@ class Live:
         if kind == "proc":
             self.fp = proc_fp(obj._loopir_proc)
             self.shell = (id(obj._loopir_proc), id(obj._provenance_eq_Procedure), id(obj._forward))
-            self.text = str(obj)
+            self.text = safe_str(obj)
             self.ccode = None  # filled lazily (first answer)
         else:
             self.fp = cursor_fp(obj)
@@ -313,7 +314,7 @@ class Session:
                         l.text = after
                         l.ccode = None
                     else:
-                        txt = str(p)
+                        txt = safe_str(p)
                         if txt != l.text:
                             self.violation(opname, "str", "procedure #%d (%s): str() changed although the tree is unchanged"
                                            % (n, l.origin), step, extra={"before": l.text, "after": txt})
@@ -379,6 +380,11 @@ class Session:
                 self.ops.append({"step": step, "op": "candidates", "outcome": "harness:" + type(e).__name__})
                 self.check_all("candidates", step)
                 continue
+            try:
+                if rng.random() < 0.5:
+                    cands = cands + c07_ops.extra_candidates(tgt.obj, rng, subs=subs)
+            except Exception as e:
+                self.ops.append({"step": step, "op": "extra-candidates", "outcome": "harness:" + type(e).__name__})
             # enumerating the candidates creates cursors and runs queries: that alone must be pure as well
             self.check_all("enumerate-cursors", step)
             if not cands:
@@ -508,6 +514,10 @@ class Session:
                 except Exception as e:
                     self.ops.append({"step": step, "op": "candidates", "outcome": "harness:" + type(e).__name__})
                     continue
+                try:
+                    cands = c07_ops.extra_candidates(tgt.obj, rng, subs=subs) + cands
+                except Exception as e:
+                    self.ops.append({"step": step, "op": "extra-candidates", "outcome": "harness:" + type(e).__name__})
                 self.check_all("enumerate-cursors", step)
                 if depth > 0:  # second level: only the list-rebuilding primitives, a sample of them
                     cands = [c for c in cands if c[0] in TT.INDEX_OPS]
@@ -668,7 +678,8 @@ def main():
         srng = random.Random(rng.getrandbits(48))
         s = Session(srng, "%ss%d" % (tag, i), emit, stats, deadline=t0 + cap * 0.55)
         try:
-            s.sweep(srng.randrange(1000))
+            widx = int("".join(ch for ch in tag if ch.isdigit()) or 0)
+            s.sweep(widx + i)
         except Exception as e:
             stats["harness_errors"] += 1
             emit({"t": "harness_error", "err": "%s: %s" % (type(e).__name__, e), "tb": traceback.format_exc()[-1500:],
